@@ -17,6 +17,13 @@ func drawC07(t *rapid.T) *dScenario {
 	k := defaultDKnobs()
 	k.BlockerPct = 14
 	k.BudgetPct = 8
+	if dpct(t, 40, "consolidationProfile") {
+		// worlds in which consolidation (single- and multi-node) finds work, with a third party protecting a node while
+		// the command waits out its validation period: the re-validation must drop the whole command
+		k.BlockerPct, k.BudgetPct, k.StaticPct, k.DriftPct, k.NeverPct, k.WhenEmptyPct, k.EmptyNodePct, k.EarlyPct = 4, 5, 3, 4, 2, 6, 8, 8
+		k.Sched.MaxNodes, k.MinNodes, k.FillerPct, k.BigPodPct = 8, 3, 45, 8
+		k.MidWaitPct, k.MidWaitBlockers = 75, true
+	}
 	return drawDisrupt(t, k)
 }
 
